@@ -128,7 +128,10 @@ func (b *FetchResponseBlock) decode(pd packetDecoder, version int16) (err error)
 			return err
 		}
 
-		if n > 0 || (partial && len(b.RecordsSet) == 0) {
+		// complete record batches are kept even when they carry no records (compaction can
+		// empty them): the consumer needs their offset range to move past them
+		emptyBatch := n == 0 && !partial && records.recordsType == defaultRecords && records.RecordBatch != nil
+		if n > 0 || emptyBatch || (partial && len(b.RecordsSet) == 0) {
 			b.RecordsSet = append(b.RecordsSet, records)
 
 			if b.Records == nil {
